@@ -1,17 +1,1289 @@
-//! Engine `bitflip` — placeholder (not written yet).
+//! Engine `bitflip` (C19): synthesized minidumps → `minidump_processor::process_minidump` →
+//! `exception_info.possible_bit_flips`, against the Lean model `MdModel.BitFlip`, plus the
+//! property's own oracle on the implementation's output.
+//!
+//! case lines:
+//!   `bitflip run cpu:<c> os:<win|linux|mac> exc:<code>:<flags>:<nparams>:<info0>:<info1>:<exaddr>
+//!            regs:<none|name=val,..> ins:<table key|none> map:<none|info/lo:size:prot,..|maps/lo:hi:perm,..|both/..>`
+//!   `bitflip conf <nc> <null> <low> <nearby> <poison>`      (BitFlipDetails::confidence, exhaustive)
+//!
+//! `try_bit_flips` / `check_for_bitflips` are private: they are reached only through
+//! `process_minidump`. What `op_analysis` (yaxpeax) and the crash-reason tree contribute is
+//! *observed* on the result (`exception_info.{address, adjusted_address, reason, instruction_str}`)
+//! and handed to the model; the instruction's registers come from the fixed encoding table below,
+//! which is cross-checked against the observed `memory_access_list`.
+
 use crate::common::*;
+use minidump::system_info::PointerWidth;
+use minidump::*;
+use minidump_common::format as md;
+use minidump_processor::{AdjustedAddress, BitFlipDetails, ProcessState};
+use minidump_synth as synth;
+use minidump_synth::DumpSection;
+use minidump_unwind::{simple_symbol_supplier, Symbolizer};
+use scroll::ctx::SizeWith;
+use scroll::{Pread, Pwrite};
+use std::cell::RefCell;
+use test_assembler::{Endian, Section};
 
 pub struct Bitflip;
+
+/// every exact confidence value is a multiple of 1/GRID (see MdModel.BitFlip.confGrid)
+const GRID: f64 = 320000.0;
+
+// ------------------------------------------------------------------------------------------ table
+
+struct Ins {
+    key: &'static str,
+    bytes: &'static [u8],
+    /// registers of explicit memory operands (base, index), as `RegSpec::name()` gives them
+    regs: &'static [&'static str],
+    /// base + index*scale + disp of the (single) explicit memory operand, if it has one whose
+    /// registers are all 64-bit GPRs
+    base: Option<&'static str>,
+    index: Option<(&'static str, u64)>,
+    disp: i64,
+    has_mem: bool,
+}
+
+const INS: &[Ins] = &[
+    Ins { key: "mov_rax_[rbx]", bytes: &[0x48, 0x8b, 0x03], regs: &["rbx"], base: Some("rbx"), index: None, disp: 0, has_mem: true },
+    Ins { key: "mov_rax_[rbx+rcx*8+16]", bytes: &[0x48, 0x8b, 0x44, 0xcb, 0x10], regs: &["rbx", "rcx"], base: Some("rbx"), index: Some(("rcx", 8)), disp: 16, has_mem: true },
+    Ins { key: "mov_[rdi+32]_rsi", bytes: &[0x48, 0x89, 0x77, 0x20], regs: &["rdi"], base: Some("rdi"), index: None, disp: 32, has_mem: true },
+    Ins { key: "mov_al_[rsp]", bytes: &[0x8a, 0x04, 0x24], regs: &["rsp"], base: Some("rsp"), index: None, disp: 0, has_mem: true },
+    Ins { key: "mov_rax_[r12+r13*2]", bytes: &[0x4b, 0x8b, 0x04, 0x6c], regs: &["r12", "r13"], base: Some("r12"), index: Some(("r13", 2)), disp: 0, has_mem: true },
+    Ins { key: "add_[r8+r9*4-8]_rdx", bytes: &[0x4b, 0x01, 0x54, 0x88, 0xf8], regs: &["r8", "r9"], base: Some("r8"), index: Some(("r9", 4)), disp: -8, has_mem: true },
+    // base sorts after index / "r10" < "r9" as strings / the same register twice: BTreeSet order and dedup
+    Ins { key: "mov_rax_[rcx+rbx*1]", bytes: &[0x48, 0x8b, 0x04, 0x19], regs: &["rcx", "rbx"], base: Some("rcx"), index: Some(("rbx", 1)), disp: 0, has_mem: true },
+    Ins { key: "mov_rax_[r9+r10*1]", bytes: &[0x4b, 0x8b, 0x04, 0x11], regs: &["r9", "r10"], base: Some("r9"), index: Some(("r10", 1)), disp: 0, has_mem: true },
+    Ins { key: "mov_rax_[rbx+rbx*1]", bytes: &[0x48, 0x8b, 0x04, 0x1b], regs: &["rbx", "rbx"], base: Some("rbx"), index: Some(("rbx", 1)), disp: 0, has_mem: true },
+    Ins { key: "mov_eax_[eax]", bytes: &[0x67, 0x8b, 0x00], regs: &["eax"], base: None, index: None, disp: 0, has_mem: false },
+    Ins { key: "mov_rax_[rip+256]", bytes: &[0x48, 0x8b, 0x05, 0x00, 0x01, 0x00, 0x00], regs: &["rip"], base: Some("rip"), index: None, disp: 256, has_mem: true },
+    Ins { key: "jmp_[rax]", bytes: &[0xff, 0x20], regs: &["rax"], base: Some("rax"), index: None, disp: 0, has_mem: true },
+    Ins { key: "mov_rax_[rsi*4+64]", bytes: &[0x48, 0x8b, 0x04, 0xb5, 0x40, 0x00, 0x00, 0x00], regs: &["rsi"], base: None, index: Some(("rsi", 4)), disp: 64, has_mem: true },
+    Ins { key: "lea_rax_[rbx+8]", bytes: &[0x48, 0x8d, 0x43, 0x08], regs: &["rbx"], base: None, index: None, disp: 0, has_mem: false },
+    Ins { key: "nop", bytes: &[0x90], regs: &[], base: None, index: None, disp: 0, has_mem: false },
+    Ins { key: "push_rbx", bytes: &[0x53], regs: &[], base: None, index: None, disp: 0, has_mem: false },
+    Ins { key: "mov_rax_[0x1000]", bytes: &[0x48, 0x8b, 0x04, 0x25, 0x00, 0x10, 0x00, 0x00], regs: &[], base: None, index: None, disp: 0, has_mem: false },
+    Ins { key: "div_rcx", bytes: &[0x48, 0xf7, 0xf1], regs: &[], base: None, index: None, disp: 0, has_mem: false },
+    // not decodable: op_analysis fails, no instruction registers
+    Ins { key: "truncated", bytes: &[0x48], regs: &[], base: None, index: None, disp: 0, has_mem: false },
+    Ins { key: "invalid", bytes: &[0x06], regs: &[], base: None, index: None, disp: 0, has_mem: false },
+];
+
+const AMD64_REGS: &[&str] = &[
+    "rax", "rdx", "rcx", "rbx", "rsi", "rdi", "rbp", "rsp", "r8", "r9", "r10", "r11", "r12", "r13",
+    "r14", "r15", "rip",
+];
+const PPC64_REGS: &[&str] = &[
+    "srr0", "srr1", "r0", "r1", "r2", "r3", "r4", "r5", "r6", "r7", "r8", "r9", "r10", "r11", "r12",
+    "r13", "r14", "r15", "r16", "r17", "r18", "r19", "r20", "r21", "r22", "r23", "r24", "r25", "r26",
+    "r27", "r28", "r29", "r30", "r31", "cr", "xer", "lr", "ctr", "vrsave",
+];
+
+/// hardware numbering of the amd64 general purpose registers
+const AMD64_HW: [&str; 16] = [
+    "rax", "rcx", "rdx", "rbx", "rsp", "rbp", "rsi", "rdi", "r8", "r9", "r10", "r11", "r12", "r13", "r14", "r15",
+];
+
+struct InsInfo {
+    key: String,
+    bytes: Vec<u8>,
+    regs: Vec<&'static str>,
+    base: Option<&'static str>,
+    index: Option<(&'static str, u64)>,
+    disp: i64,
+    has_mem: bool,
+}
+
+/// A table key, or a synthesized `mov rax, [base + index*scale + disp]` in SIB form:
+/// `sib.<base|none>.<index|none>.<1|2|4|8>.<disp>` (any of the 16 GPRs as base, any but rsp as index).
+fn find_ins(key: &str) -> Option<InsInfo> {
+    if let Some(i) = INS.iter().find(|i| i.key == key) {
+        return Some(InsInfo {
+            key: key.to_string(),
+            bytes: i.bytes.to_vec(),
+            regs: i.regs.to_vec(),
+            base: i.base,
+            index: i.index,
+            disp: i.disp,
+            has_mem: i.has_mem,
+        });
+    }
+    let p: Vec<&str> = key.split('.').collect();
+    if p.len() != 5 || p[0] != "sib" {
+        return None;
+    }
+    let hw = |n: &str| AMD64_HW.iter().position(|r| *r == n);
+    let base = if p[1] == "none" { None } else { Some(hw(p[1])?) };
+    let index = if p[2] == "none" { None } else { Some(hw(p[2])?) };
+    if index == Some(4) {
+        return None; // rsp cannot be an index
+    }
+    let scale: u64 = p[3].parse().ok()?;
+    let sbits = match scale {
+        1 => 0u8,
+        2 => 1,
+        4 => 2,
+        8 => 3,
+        _ => return None,
+    };
+    let disp: i32 = p[4].parse().ok()?;
+    if base.is_none() && index.is_none() {
+        return None;
+    }
+    let x = index.map(|i| (i >> 3) as u8).unwrap_or(0);
+    let b = base.map(|i| (i >> 3) as u8).unwrap_or(0);
+    let rex = 0x48 | (x << 1) | b;
+    let idx3 = index.map(|i| (i & 7) as u8).unwrap_or(4);
+    let (md, base3, dbytes): (u8, u8, Vec<u8>) = match base {
+        None => (0, 5, disp.to_le_bytes().to_vec()),
+        Some(bi) => {
+            let b3 = (bi & 7) as u8;
+            if disp == 0 && b3 != 5 {
+                (0, b3, vec![])
+            } else if (-128..=127).contains(&disp) {
+                (1, b3, vec![disp as i8 as u8])
+            } else {
+                (2, b3, disp.to_le_bytes().to_vec())
+            }
+        }
+    };
+    let mut bytes = vec![rex, 0x8b, (md << 6) | 4, (sbits << 6) | (idx3 << 3) | base3];
+    bytes.extend(dbytes);
+    let mut regs = vec![];
+    if let Some(bi) = base {
+        regs.push(AMD64_HW[bi]);
+    }
+    if let Some(ii) = index {
+        regs.push(AMD64_HW[ii]);
+    }
+    Some(InsInfo {
+        key: key.to_string(),
+        bytes,
+        regs,
+        base: base.map(|i| AMD64_HW[i]),
+        index: index.map(|i| (AMD64_HW[i], scale)),
+        disp: disp as i64,
+        has_mem: true,
+    })
+}
+
+// ------------------------------------------------------------------------------------------- case
+
+#[derive(Clone, Debug)]
+struct Exc {
+    code: u32,
+    flags: u32,
+    nparams: u32,
+    info0: u64,
+    info1: u64,
+    addr: u64,
+}
+
+#[derive(Clone, Debug, PartialEq)]
+enum MapKind {
+    None,
+    Info,
+    Maps,
+    /// both streams present (the same region list twice): the code prefers the info list
+    Both,
+}
+
+#[derive(Clone, Debug)]
+struct Region {
+    lo: u64,
+    b: u64,
+    /// protection bits (info) — or for maps bit0=r bit1=w bit2=x
+    p: u32,
+}
+
+#[derive(Clone, Debug)]
+struct Case {
+    cpu: String,
+    os: String,
+    exc: Exc,
+    regs: Option<Vec<(String, u64)>>,
+    ins: String,
+    kind: MapKind,
+    regions: Vec<Region>,
+}
+
+fn perm_str(p: u32) -> String {
+    let mut s = String::new();
+    if p & 1 != 0 {
+        s.push('r');
+    }
+    if p & 2 != 0 {
+        s.push('w');
+    }
+    if p & 4 != 0 {
+        s.push('x');
+    }
+    if s.is_empty() {
+        s.push('-');
+    }
+    s
+}
+
+fn parse_perm(s: &str) -> Option<u32> {
+    if s == "-" {
+        return Some(0);
+    }
+    let mut p = 0;
+    for c in s.chars() {
+        p |= match c {
+            'r' => 1,
+            'w' => 2,
+            'x' => 4,
+            _ => return None,
+        };
+    }
+    Some(p)
+}
+
+fn render_map(kind: &MapKind, regions: &[Region]) -> String {
+    let body = |as_maps: bool| {
+        regions
+            .iter()
+            .map(|r| {
+                if as_maps {
+                    format!("{}:{}:{}", r.lo, r.b, perm_str(r.p))
+                } else {
+                    format!("{}:{}:{}", r.lo, r.b, r.p)
+                }
+            })
+            .collect::<Vec<_>>()
+            .join(",")
+    };
+    match kind {
+        MapKind::None => "none".into(),
+        MapKind::Info => format!("info/{}", body(false)),
+        MapKind::Both => format!("both/{}", body(false)),
+        MapKind::Maps => format!("maps/{}", body(true)),
+    }
+}
+
+fn render(c: &Case) -> String {
+    let regs = match &c.regs {
+        None => "none".to_string(),
+        Some(v) if v.is_empty() => "-".to_string(),
+        Some(v) => v.iter().map(|(n, x)| format!("{n}={x}")).collect::<Vec<_>>().join(","),
+    };
+    format!(
+        "bitflip run cpu:{} os:{} exc:{}:{}:{}:{}:{}:{} regs:{} ins:{} map:{}",
+        c.cpu, c.os, c.exc.code, c.exc.flags, c.exc.nparams, c.exc.info0, c.exc.info1, c.exc.addr, regs, c.ins,
+        render_map(&c.kind, &c.regions)
+    )
+}
+
+fn parse_case(line: &str) -> Option<Case> {
+    let f: Vec<&str> = line.split(' ').filter(|s| !s.is_empty()).collect();
+    if f.len() != 8 || f[0] != "bitflip" || f[1] != "run" {
+        return None;
+    }
+    let cpu = f[2].strip_prefix("cpu:")?.to_string();
+    let os = f[3].strip_prefix("os:")?.to_string();
+    let e: Vec<&str> = f[4].strip_prefix("exc:")?.split(':').collect();
+    if e.len() != 6 {
+        return None;
+    }
+    let exc = Exc {
+        code: e[0].parse().ok()?,
+        flags: e[1].parse().ok()?,
+        nparams: e[2].parse().ok()?,
+        info0: e[3].parse().ok()?,
+        info1: e[4].parse().ok()?,
+        addr: e[5].parse().ok()?,
+    };
+    let r = f[5].strip_prefix("regs:")?;
+    let regs = if r == "none" {
+        None
+    } else if r == "-" {
+        Some(vec![])
+    } else {
+        let mut v = vec![];
+        for p in r.split(',') {
+            let (n, x) = p.split_once('=')?;
+            v.push((n.to_string(), x.parse().ok()?));
+        }
+        Some(v)
+    };
+    let ins = f[6].strip_prefix("ins:")?.to_string();
+    if ins != "none" && find_ins(&ins).is_none() {
+        return None;
+    }
+    let m = f[7].strip_prefix("map:")?;
+    let (kind, body) = if m == "none" {
+        (MapKind::None, "")
+    } else {
+        let (k, b) = m.split_once('/')?;
+        (
+            match k {
+                "info" => MapKind::Info,
+                "maps" => MapKind::Maps,
+                "both" => MapKind::Both,
+                _ => return None,
+            },
+            b,
+        )
+    };
+    let mut regions = vec![];
+    for p in body.split(',').filter(|s| !s.is_empty()) {
+        let q: Vec<&str> = p.split(':').collect();
+        if q.len() != 3 {
+            return None;
+        }
+        let pr = if kind == MapKind::Maps { parse_perm(q[2])? } else { q[2].parse().ok()? };
+        regions.push(Region { lo: q[0].parse().ok()?, b: q[1].parse().ok()?, p: pr });
+    }
+    match cpu.as_str() {
+        "amd64" | "x86" | "arm64" | "ppc64" | "mips64" | "arm" | "ppc" | "unknown" => {}
+        _ => return None,
+    }
+    match os.as_str() {
+        "win" | "linux" | "mac" => {}
+        _ => return None,
+    }
+    // register names must exist for the cpu
+    if let Some(v) = &regs {
+        let names: &[&str] = match cpu.as_str() {
+            "amd64" => AMD64_REGS,
+            "ppc64" => PPC64_REGS,
+            "x86" => &["eip", "esp"],
+            "arm64" => &["pc", "sp"],
+            _ => &[],
+        };
+        if v.iter().any(|(n, _)| !names.contains(&n.as_str())) {
+            return None;
+        }
+        if cpu == "x86" && v.iter().any(|(_, x)| *x > u32::MAX as u64) {
+            return None;
+        }
+    }
+    Some(Case { cpu, os, exc, regs, ins, kind, regions })
+}
+
+// ------------------------------------------------------------------------------------ dump builder
+
+fn arch_of(cpu: &str) -> u16 {
+    use md::ProcessorArchitecture::*;
+    (match cpu {
+        "amd64" => PROCESSOR_ARCHITECTURE_AMD64,
+        "x86" => PROCESSOR_ARCHITECTURE_INTEL,
+        "arm64" => PROCESSOR_ARCHITECTURE_ARM64,
+        "ppc64" => PROCESSOR_ARCHITECTURE_PPC64,
+        "mips64" => PROCESSOR_ARCHITECTURE_MIPS64,
+        "arm" => PROCESSOR_ARCHITECTURE_ARM,
+        "ppc" => PROCESSOR_ARCHITECTURE_PPC,
+        _ => PROCESSOR_ARCHITECTURE_UNKNOWN,
+    }) as u16
+}
+
+fn platform_of(os: &str) -> u32 {
+    (match os {
+        "win" => md::PlatformId::VER_PLATFORM_WIN32_NT,
+        "linux" => md::PlatformId::Linux,
+        _ => md::PlatformId::MacOs,
+    }) as u32
+}
+
+fn reg_of(regs: &[(String, u64)], name: &str) -> u64 {
+    regs.iter().rev().find(|(n, _)| n == name).map(|(_, v)| *v).unwrap_or(0)
+}
+
+/// the exception/thread context section for the cpu, holding `regs` (others zero)
+fn context_section(cpu: &str, regs: &[(String, u64)]) -> Section {
+    let le = scroll::LE;
+    match cpu {
+        "amd64" => {
+            let mut c = md::CONTEXT_AMD64::default();
+            c.context_flags = 0x10001f;
+            let g = |n: &str| reg_of(regs, n);
+            c.rax = g("rax");
+            c.rdx = g("rdx");
+            c.rcx = g("rcx");
+            c.rbx = g("rbx");
+            c.rsi = g("rsi");
+            c.rdi = g("rdi");
+            c.rbp = g("rbp");
+            c.rsp = g("rsp");
+            c.r8 = g("r8");
+            c.r9 = g("r9");
+            c.r10 = g("r10");
+            c.r11 = g("r11");
+            c.r12 = g("r12");
+            c.r13 = g("r13");
+            c.r14 = g("r14");
+            c.r15 = g("r15");
+            c.rip = g("rip");
+            let mut bytes = vec![0u8; md::CONTEXT_AMD64::size_with(&le)];
+            bytes.pwrite_with(c, 0, le).expect("write amd64 context");
+            Section::with_endian(Endian::Little).append_bytes(&bytes)
+        }
+        "ppc64" => {
+            let zero = vec![0u8; md::CONTEXT_PPC64::size_with(&le)];
+            let mut c: md::CONTEXT_PPC64 = zero.pread_with(0, le).expect("read zero ppc64 context");
+            c.context_flags = 0x1000000 | 0x3;
+            let g = |n: &str| reg_of(regs, n);
+            c.srr0 = g("srr0");
+            c.srr1 = g("srr1");
+            for i in 0..32 {
+                c.gpr[i] = g(&format!("r{i}"));
+            }
+            c.cr = g("cr");
+            c.xer = g("xer");
+            c.lr = g("lr");
+            c.ctr = g("ctr");
+            c.vrsave = g("vrsave");
+            let mut bytes = zero.clone();
+            bytes.pwrite_with(c, 0, le).expect("write ppc64 context");
+            Section::with_endian(Endian::Little).append_bytes(&bytes)
+        }
+        "x86" => synth::x86_context(Endian::Little, reg_of(regs, "eip") as u32, reg_of(regs, "esp") as u32),
+        "arm64" => synth::arm64_context(Endian::Little, reg_of(regs, "pc"), reg_of(regs, "sp")),
+        // no readable context for these architectures in this harness
+        _ => synth::amd64_context(Endian::Little, 0, 0),
+    }
+}
+
+fn ip_name(cpu: &str) -> &'static str {
+    match cpu {
+        "amd64" => "rip",
+        "ppc64" => "srr0",
+        "x86" => "eip",
+        _ => "pc",
+    }
+}
+
+fn build_dump(c: &Case) -> Vec<u8> {
+    let regs: Vec<(String, u64)> = c.regs.clone().unwrap_or_default();
+    let context = context_section(&c.cpu, &regs);
+    let context_label = context.file_offset();
+    let context_size = context.file_size();
+    let stack = synth::Memory::with_section(Section::with_endian(Endian::Little), 0);
+    let thread = synth::Thread::new(Endian::Little, 1, &stack, &context);
+    // the context goes first so that its file offset is known before the exception record cites it
+    let mut dump = synth::SynthMinidump::with_endian(Endian::Little).add(context);
+    let system_info = synth::SystemInfo::new(Endian::Little)
+        .set_processor_architecture(arch_of(&c.cpu))
+        .set_platform_id(platform_of(&c.os));
+    let mut ex = synth::Exception::new(Endian::Little);
+    ex.thread_id = 1;
+    ex.exception_record.exception_code = c.exc.code;
+    ex.exception_record.exception_flags = c.exc.flags;
+    ex.exception_record.number_parameters = c.exc.nparams;
+    ex.exception_record.exception_information[0] = c.exc.info0;
+    ex.exception_record.exception_information[1] = c.exc.info1;
+    ex.exception_record.exception_address = c.exc.addr;
+    if c.regs.is_some() {
+        ex.thread_context = (
+            context_size.value().expect("context size") as u32,
+            context_label.value().expect("context offset") as u32,
+        );
+    }
+    dump = dump.add_thread(thread).add_exception(ex).add_system_info(system_info);
+    if c.ins != "none" {
+        let ins = find_ins(&c.ins).expect("table key");
+        let ip = reg_of(&regs, ip_name(&c.cpu));
+        let mem = synth::Memory::with_section(Section::with_endian(Endian::Little).append_bytes(&ins.bytes), ip);
+        dump = dump.add_memory(mem);
+    }
+    dump = dump.add_memory(stack);
+    if c.kind == MapKind::Info || c.kind == MapKind::Both {
+        for r in &c.regions {
+            dump = dump.add_memory_info(synth::MemoryInfo::new(Endian::Little, r.lo, r.lo, 0, r.b, 0x1000, r.p, 0));
+        }
+    }
+    if c.kind == MapKind::Maps || c.kind == MapKind::Both {
+        let mut text = String::new();
+        for (i, r) in c.regions.iter().enumerate() {
+            let p = if c.kind == MapKind::Maps { r.p } else { 7 };
+            let perms = format!(
+                "{}{}{}p",
+                if p & 1 != 0 { 'r' } else { '-' },
+                if p & 2 != 0 { 'w' } else { '-' },
+                if p & 4 != 0 { 'x' } else { '-' }
+            );
+            text.push_str(&format!("{:x}-{:x} {} 00000000 00:00 0 /lib/x{}\n", r.lo, r.b, perms, i));
+        }
+        dump = dump.set_linux_maps(text.as_bytes());
+    }
+    dump.finish().expect("synth dump")
+}
+
+thread_local! {
+    static RT: tokio::runtime::Runtime = tokio::runtime::Builder::new_current_thread().build().expect("tokio runtime");
+    /// last (case line -> model request) computed by `exec` on this thread
+    static LAST: RefCell<Option<(String, Option<String>)>> = const { RefCell::new(None) };
+}
+
+fn process(bytes: Vec<u8>) -> ProcessState {
+    let dump = Minidump::read(bytes).expect("synth dump reads");
+    RT.with(|rt| {
+        rt.block_on(async {
+            minidump_processor::process_minidump(&dump, &Symbolizer::new(simple_symbol_supplier(vec![])))
+                .await
+                .expect("process_minidump")
+        })
+    })
+}
+
+// ---------------------------------------------------------------------------------------- oracle
+
+/// is_readable / is_writable / is_executable of a region as the *documentation* of the two
+/// formats defines them (independent of the model): (r, w, x)
+fn perms_of(kind: &MapKind, r: &Region) -> (bool, bool, bool) {
+    if *kind == MapKind::Maps {
+        (r.p & 1 != 0, r.p & 2 != 0, r.p & 4 != 0)
+    } else {
+        let p = r.p;
+        (
+            p & (0x02 | 0x04 | 0x20 | 0x40) != 0,
+            p & (0x04 | 0x08 | 0x40 | 0x80) != 0,
+            p & (0x10 | 0x20 | 0x40 | 0x80) != 0,
+        )
+    }
+}
+
+fn own_range(kind: &MapKind, r: &Region) -> Option<(u64, u64)> {
+    if *kind == MapKind::Maps {
+        if r.lo > r.b {
+            None
+        } else {
+            Some((r.lo, r.b))
+        }
+    } else if r.b == 0 {
+        None
+    } else {
+        r.lo.checked_add(r.b).map(|e| (r.lo, e - 1))
+    }
+}
+
+/// the crashing kind of access: 0 = undetermined, 1 = read, 2 = write, 3 = execute
+fn op_of(reason: &CrashReason) -> u8 {
+    use minidump_common::errors::ExceptionCodeWindowsAccessType as A;
+    match reason {
+        CrashReason::WindowsAccessViolation(A::READ) => 1,
+        CrashReason::WindowsAccessViolation(A::WRITE) => 2,
+        CrashReason::WindowsAccessViolation(A::EXEC) => 3,
+        _ => 0,
+    }
+}
+
+fn permits(op: u8, p: (bool, bool, bool)) -> bool {
+    match op {
+        0 => true,
+        1 => p.0,
+        2 => p.1,
+        _ => p.2,
+    }
+}
+
+fn regions_at<'a>(c: &'a Case, a: u64) -> Vec<&'a Region> {
+    c.regions
+        .iter()
+        .filter(|r| matches!(own_range(&c.kind, r), Some((lo, hi)) if lo <= a && a <= hi))
+        .collect()
+}
+
+fn details_str(d: &BitFlipDetails) -> String {
+    format!(
+        "{}{}{}.{}.{}",
+        d.was_non_canonical as u8, d.is_null as u8, d.was_low as u8, d.nearby_registers, d.poison_registers as u8
+    )
+}
+
+/// quantise a confidence to the grid; Err if it is not within 1e-6 of a grid point or not finite
+fn grid(conf: f32) -> Result<i64, String> {
+    let c = conf as f64;
+    if !c.is_finite() {
+        return Err(format!("confidence {conf} is not finite"));
+    }
+    let k = (c * GRID).round();
+    if (c - k / GRID).abs() > 1e-6 {
+        return Err(format!("confidence {conf} is not within 1e-6 of k/320000 (k={k})"));
+    }
+    Ok(k as i64)
+}
+
+fn exec_conf(f: &[&str]) -> ImplResult {
+    let mut res = ImplResult::default();
+    let b = |s: &str| match s {
+        "0" => Some(false),
+        "1" => Some(true),
+        _ => None,
+    };
+    let (Some(nc), Some(nul), Some(low), Ok(near), Some(poi)) = (b(f[0]), b(f[1]), b(f[2]), f[3].parse::<u32>(), b(f[4])) else {
+        res.out = "bad-op".into();
+        return res;
+    };
+    let d = BitFlipDetails { was_non_canonical: nc, is_null: nul, was_low: low, nearby_registers: near, poison_registers: poi };
+    res.tags.push("kind:conf".into());
+    res.nontrivial = true;
+    match catch(|| d.confidence()) {
+        Err(m) => {
+            res.out = "PANIC".into();
+            res.oracle.push(("confidence-panics".into(), m));
+        }
+        Ok(c) => {
+            if !(c >= 0.0 && c <= 1.0) {
+                res.oracle.push(("confidence-out-of-unit-interval".into(), format!("{d:?} -> {c}")));
+            }
+            match grid(c) {
+                Ok(k) => res.out = k.to_string(),
+                Err(m) => {
+                    res.out = format!("{c}");
+                    res.oracle.push(("confidence-off-grid".into(), m));
+                }
+            }
+        }
+    }
+    res
+}
+
+struct Observed {
+    out: String,
+    request: Option<String>,
+}
+
+fn run_case(c: &Case, res: &mut ImplResult) -> Observed {
+    let state = process(build_dump(c));
+    let Some(info) = state.exception_info.as_ref() else {
+        res.oracle.push(("harness-sanity".into(), "no exception_info".into()));
+        return Observed { out: "no-exception".into(), request: None };
+    };
+    let cpu = state.system_info.cpu;
+    let is64 = cpu.pointer_width() == PointerWidth::Bits64;
+    let gated_platform = !is64 || cpu == system_info::Cpu::Arm64;
+    let op = op_of(&info.reason);
+    let regs: Option<Vec<(String, u64)>> = c.regs.clone();
+    let ins = find_ins(&c.ins);
+    let ins = ins.as_ref();
+    let analysed = info.instruction_str.is_some();
+
+    // ---- sanity of the harness' own assumptions (a failure here is a harness bug, not a finding)
+    let have_ctx = regs.is_some() && matches!(c.cpu.as_str(), "amd64" | "ppc64" | "x86" | "arm64");
+    if let (Some(ins), true, true) = (ins, analysed, c.cpu == "amd64") {
+        if ins.has_mem {
+            let r = regs.as_deref().unwrap_or(&[]);
+            let mut a = ins.base.map(|b| reg_of(r, b)).unwrap_or(0);
+            if let Some((ix, sc)) = ins.index {
+                a = a.wrapping_add(reg_of(r, ix).wrapping_mul(sc));
+            }
+            a = a.wrapping_add(ins.disp as u64);
+            let seen = info
+                .memory_access_list
+                .as_ref()
+                .map(|l| l.accesses.iter().any(|m| m.address_info.address == a))
+                .unwrap_or(false)
+                // (the enum's type is not nameable from outside the crate: use its Debug form)
+                || format!("{:?}", info.instruction_pointer_update).contains(&format!("address: {a},"));
+            if !seen && info.memory_access_list.is_some() {
+                res.oracle.push((
+                    "harness-sanity".into(),
+                    format!("encoding table: {} expected access at {a:#x}, observed {:?}", ins.key, info.memory_access_list),
+                ));
+            }
+        }
+    }
+    if analysed && c.cpu != "amd64" {
+        res.oracle.push(("harness-sanity".into(), "instruction analysed on a non-amd64 dump".into()));
+    }
+
+    // ---- canonical output
+    let mut out = String::from("flips:");
+    for f in &info.possible_bit_flips {
+        let conf = match f.confidence {
+            None => {
+                res.oracle.push(("confidence-missing".into(), format!("{f:?}")));
+                "none".to_string()
+            }
+            Some(cf) => {
+                if !(cf >= 0.0 && cf <= 1.0) {
+                    res.oracle.push(("confidence-out-of-unit-interval".into(), format!("{f:?}")));
+                }
+                if (cf - f.details.confidence()).abs() > 1e-6 {
+                    res.oracle.push(("confidence-not-from-details".into(), format!("{f:?}")));
+                }
+                match grid(cf) {
+                    Ok(k) => k.to_string(),
+                    Err(m) => {
+                        res.oracle.push(("confidence-off-grid".into(), m));
+                        format!("{cf}")
+                    }
+                }
+            }
+        };
+        out.push_str(&format!(
+            "{}/{}/{}/{};",
+            f.address.0,
+            f.source_register.unwrap_or("-"),
+            details_str(&f.details),
+            conf
+        ));
+    }
+
+    // ---- the property's oracle on the implementation alone
+    let nullptr = matches!(info.adjusted_address, Some(AdjustedAddress::NullPointerWithOffset(_)));
+    let noncanon = match &info.adjusted_address {
+        Some(AdjustedAddress::NonCanonical(a)) => Some(a.0),
+        _ => None,
+    };
+    if gated_platform && !info.possible_bit_flips.is_empty() {
+        res.oracle.push(("flips-on-gated-platform".into(), format!("cpu {cpu} reports {} flips", info.possible_bit_flips.len())));
+    }
+    if nullptr && !info.possible_bit_flips.is_empty() {
+        res.oracle.push(("flips-despite-null-pointer-with-offset".into(), format!("{:?}", info.possible_bit_flips)));
+    }
+    let (rlo, rhi) = if noncanon.is_some() {
+        (48u32, 64u32)
+    } else if cpu == system_info::Cpu::X86_64 {
+        (0, 48)
+    } else {
+        (0, 64)
+    };
+    let main_examined = noncanon.unwrap_or(info.address.0);
+    for f in &info.possible_bit_flips {
+        let examined = match f.source_register {
+            None => Some(main_examined),
+            Some(reg) => {
+                if let Some(ins) = ins {
+                    if !ins.regs.contains(&reg) {
+                        res.oracle.push(("register-pass-foreign-register".into(), format!("{reg} is not a register of {}", ins.key)));
+                    }
+                }
+                regs.as_ref().map(|r| reg_of(r, reg))
+            }
+        };
+        let Some(v) = examined else {
+            res.oracle.push(("register-pass-without-context".into(), format!("{f:?}")));
+            continue;
+        };
+        let diff = f.address.0 ^ v;
+        if diff.count_ones() != 1 || diff.trailing_zeros() < rlo || diff.trailing_zeros() >= rhi {
+            res.oracle.push((
+                "flip-not-single-bit-in-range".into(),
+                format!("candidate {:#x} vs examined {v:#x} (src {:?}): xor = {diff:#x}, allowed bits {rlo}..{rhi}", f.address.0, f.source_register),
+            ));
+        }
+        if f.address.0 != 0 {
+            let here = regions_at(c, f.address.0);
+            if !here.iter().any(|r| permits(op, perms_of(&c.kind, r))) {
+                res.oracle.push((
+                    "flip-not-mapped-or-not-permitted".into(),
+                    format!("candidate {:#x} (op {op}): regions containing it: {here:?}", f.address.0),
+                ));
+            }
+        }
+        // none when the examined address is itself accessible (every region containing it permits)
+        // With overlapping regions the table keeps only the first of each overlapping group
+        // (C08: lookups are sound, and complete for entries that intersect no other entry), so
+        // "accessible" is unambiguous only when the containing region is isolated.
+        let at = regions_at(c, v);
+        let isolated = at.len() == 1 && {
+            let me = own_range(&c.kind, at[0]).unwrap();
+            c.regions
+                .iter()
+                .filter(|r| !std::ptr::eq(*r, at[0]))
+                .filter_map(|r| own_range(&c.kind, r))
+                .all(|o| !(me.0 <= o.1 && me.1 >= o.0))
+        };
+        if !at.is_empty() && !isolated {
+            res.tags.push("examined-in-overlapping-regions".into());
+        }
+        if isolated && at.iter().all(|r| permits(op, perms_of(&c.kind, r))) {
+            res.oracle.push((
+                "flips-although-examined-accessible".into(),
+                format!("examined {v:#x} (src {:?}) lies in {at:?} which permits op {op}", f.source_register),
+            ));
+        }
+        if f.details.is_null != (f.address.0 == 0) {
+            res.oracle.push(("details-is-null-wrong".into(), format!("{f:?}")));
+        }
+    }
+
+    // ---- tags / non-triviality
+    res.tags.push(format!("cpu:{}", c.cpu));
+    res.tags.push(format!("map:{:?}", c.kind));
+    res.tags.push(format!("regions:{}", match c.regions.len() { 0 => "0", 1 => "1", 2..=4 => "2-4", 5..=16 => "5-16", _ => "17-64" }));
+    res.tags.push(format!("op:{op}"));
+    res.tags.push(format!("adjusted:{}", if nullptr { "nullptr" } else if noncanon.is_some() { "noncanonical" } else { "none" }));
+    res.tags.push(format!("flips:{}", match info.possible_bit_flips.len() { 0 => "0", 1 => "1", 2..=4 => "2-4", _ => "5+" }));
+    for f in &info.possible_bit_flips {
+        let v = match f.source_register {
+            None => Some(main_examined),
+            Some(reg) => regs.as_ref().map(|r| reg_of(r, reg)),
+        };
+        if let Some(v) = v {
+            let d = f.address.0 ^ v;
+            if d.count_ones() == 1 {
+                res.tags.push(format!("flipped-bit:{}", match d.trailing_zeros() { 0..=11 => "0-11", 12..=46 => "12-46", 47 => "47", 48 => "48", 49..=62 => "49-62", _ => "63" }));
+            }
+        }
+    }
+    if info.possible_bit_flips.iter().any(|f| f.source_register.is_some()) {
+        res.tags.push("register-pass-flip".into());
+    }
+    if info.possible_bit_flips.iter().any(|f| f.address.0 == 0) {
+        res.tags.push("null-candidate".into());
+    }
+    if info.possible_bit_flips.iter().any(|f| f.details.nearby_registers > 0) {
+        res.tags.push("nearby>0".into());
+    }
+    if info.possible_bit_flips.iter().any(|f| f.details.poison_registers) {
+        res.tags.push("poison".into());
+    }
+    if c.regions.iter().any(|r| matches!(own_range(&c.kind, r), Some((_, hi)) if hi == u64::MAX)) {
+        res.tags.push("region-ends-at-top".into());
+    }
+    if analysed {
+        res.tags.push("instruction-analysed".into());
+    }
+    res.nontrivial = !info.possible_bit_flips.is_empty()
+        || (!gated_platform && !c.regions.is_empty() && regions_at(c, main_examined).is_empty());
+
+    // ---- the model request: case inputs + what op_analysis / the reason tree produced
+    let cpu_s = match cpu {
+        system_info::Cpu::X86 => "x86",
+        system_info::Cpu::X86_64 => "amd64",
+        system_info::Cpu::Ppc => "ppc",
+        system_info::Cpu::Ppc64 => "ppc64",
+        system_info::Cpu::Sparc => "sparc",
+        system_info::Cpu::Arm => "arm",
+        system_info::Cpu::Arm64 => "arm64",
+        system_info::Cpu::Mips => "mips",
+        system_info::Cpu::Mips64 => "mips64",
+        _ => "unknown",
+    };
+    let reason_s = ["other", "read", "write", "exec"][op as usize];
+    let adj_s = match &info.adjusted_address {
+        None => "none".to_string(),
+        Some(AdjustedAddress::NonCanonical(a)) => format!("nc={}", a.0),
+        Some(AdjustedAddress::NullPointerWithOffset(a)) => format!("np={}", a.0),
+    };
+    let ctx_s = if have_ctx {
+        let r = regs.as_deref().unwrap_or(&[]);
+        let (names, size): (&[&str], u32) = match c.cpu.as_str() {
+            "amd64" => (AMD64_REGS, 8),
+            "ppc64" => (PPC64_REGS, 8),
+            // gated platforms: the context is never read by the analysis
+            _ => (&[], 4),
+        };
+        format!(
+            "{size}/{}",
+            names.iter().map(|n| format!("{n}={}", reg_of(r, n))).collect::<Vec<_>>().join(",")
+        )
+    } else {
+        "none".to_string()
+    };
+    let iregs_s = match (analysed, ins) {
+        (true, Some(i)) if !i.regs.is_empty() => i.regs.join(","),
+        _ => "-".to_string(),
+    };
+    let map_s = match c.kind {
+        MapKind::None => "info/".to_string(),
+        MapKind::Both => render_map(&MapKind::Info, &c.regions),
+        _ => render_map(&c.kind, &c.regions),
+    };
+    let request = format!(
+        "bitflip run cpu:{cpu_s} reason:{reason_s} addr:{} adj:{adj_s} ctx:{ctx_s} iregs:{iregs_s} map:{map_s}",
+        info.address.0
+    );
+    Observed { out, request: Some(request) }
+}
+
+// -------------------------------------------------------------------------------------- generator
+
+const PROTS: &[u32] = &[0x01, 0x02, 0x04, 0x08, 0x10, 0x20, 0x40, 0x80, 0x00, 0x104, 0x202, 0x42];
+const POISON: &[u64] = &[0xe5e5e5e5e5e5e5e5, 0xa5a5a5a5a5a5a5a5, 0x2b2b2b2b2b2b2b2b, 0xcdcdcdcdcdcdcdcd, 0x4141414141414141, 0xe5];
+
+fn gen_regions(rng: &mut Rng, kind: &MapKind, n: usize) -> Vec<Region> {
+    let mut rs = vec![];
+    let bases: [u64; 6] = [
+        0x0000_7f00_0000_0000 + (rng.below(1 << 20) << 12),
+        0x0000_0000_0040_0000 + (rng.below(1 << 8) << 12),
+        0x0000_5555_0000_0000 + (rng.below(1 << 16) << 12),
+        0xffff_8000_0000_0000 + (rng.below(1 << 20) << 12),
+        0x0001_0000_0000_0000 + (rng.below(1 << 20) << 12),
+        rng.next() & !0xfff,
+    ];
+    let mut cursor = *rng.pick(&bases);
+    for _ in 0..n {
+        let shape = rng.below(20);
+        let pages = 1 + rng.below(4);
+        let p = if *kind == MapKind::Maps { rng.below(8) as u32 } else { *rng.pick(PROTS) };
+        let (lo, size) = match shape {
+            0 => (0, 0x1000 * pages),                                 // NULL page mapped
+            1 => (u64::MAX - 0x1000 * pages + 1, 0x1000 * pages),     // ends at 2^64-1
+            2 => (*rng.pick(&bases), 0),                              // empty
+            3 => (u64::MAX - 0xfff, 0x2000),                          // overflows
+            4 if !rs.is_empty() => {                                  // overlaps a previous one
+                let q: &Region = rng.pick(&rs);
+                (q.lo.wrapping_add(0x800), 0x1000)
+            }
+            5 => {
+                cursor = *rng.pick(&bases);
+                (cursor, 0x1000 * pages)
+            }
+            6 => (1u64 << rng.below(64), 0x1000),                     // a power of two: neighbours of 0
+            _ => {
+                let gap = if rng.chance(1, 2) { 0 } else { 0x1000 * rng.below(3) };
+                let lo = cursor.wrapping_add(gap);
+                cursor = lo.wrapping_add(0x1000 * pages);
+                (lo, 0x1000 * pages)
+            }
+        };
+        let b = if *kind == MapKind::Maps {
+            // inclusive final address; empty/overflow shapes become lo > hi
+            if size == 0 {
+                lo.wrapping_sub(1)
+            } else {
+                lo.saturating_add(size - 1)
+            }
+        } else {
+            size
+        };
+        rs.push(Region { lo, b, p });
+    }
+    rs
+}
+
+/// an address "interesting" w.r.t. the regions
+fn gen_addr(rng: &mut Rng, kind: &MapKind, rs: &[Region]) -> u64 {
+    let valid: Vec<(u64, u64)> = rs.iter().filter_map(|r| own_range(kind, r)).collect();
+    let inside = |rng: &mut Rng| -> u64 {
+        if valid.is_empty() {
+            rng.next()
+        } else {
+            let (lo, hi) = *rng.pick(&valid);
+            match rng.below(4) {
+                0 => lo,
+                1 => hi,
+                _ => lo + rng.below((hi - lo).saturating_add(1).max(1)),
+            }
+        }
+    };
+    let bit = |rng: &mut Rng| -> u64 {
+        match rng.below(8) {
+            0 => *rng.pick(&[0u64, 11, 12, 13, 46, 47, 48, 49, 62, 63]), // boundaries of the ranges / page / cut-offs
+            1 => 48 + rng.below(16),
+            _ => rng.below(64),
+        }
+    };
+    match rng.below(16) {
+        0..=6 => inside(rng) ^ (1u64 << bit(rng)), // a single-bit neighbour of mapped memory
+        7 => inside(rng),                                 // accessible itself
+        8 => 1u64 << rng.below(64),                       // neighbour of NULL
+        9 => rng.below(0x3000),                           // near NULL / low
+        10 => inside(rng) ^ (1u64 << (47 + rng.below(3))), // around the canonical boundary
+        11 => inside(rng) ^ (3u64 << rng.below(63)),       // two bits off
+        12 => match rng.below(4) {
+            0 => 0,
+            1 => u64::MAX,
+            2 => 0x0000_8000_0000_0000,
+            _ => 0xffff_7fff_ffff_ffff,
+        },
+        13 => inside(rng).wrapping_add(rng.below(0x2000)).wrapping_sub(0x1000),
+        _ => rng.next(),
+    }
+}
+
+fn gen_exc(rng: &mut Rng, os: &str, addr: u64) -> Exc {
+    match os {
+        "win" => match rng.below(10) {
+            0 => Exc { code: 0xc0000005, flags: 0, nparams: 2, info0: 0, info1: u64::MAX, addr: 0x1000 }, // GPF shape
+            1 => Exc { code: 0xc0000005, flags: 0, nparams: rng.below(2) as u32, info0: *rng.pick(&[0, 1, 8]), info1: addr, addr },
+            2 => Exc { code: 0xc000001d, flags: 0, nparams: 0, info0: 0, info1: 0, addr },
+            3 => Exc { code: 0xc0000006, flags: 0, nparams: 3, info0: *rng.pick(&[0, 1, 8]), info1: addr, addr: 0x2000 },
+            _ => Exc { code: 0xc0000005, flags: 0, nparams: 2, info0: *rng.pick(&[0, 0, 1, 1, 8, 8, 2]), info1: addr, addr: 0x2000 },
+        },
+        "linux" => match rng.below(6) {
+            0 => Exc { code: 11, flags: 0x80, nparams: 0, info0: 0, info1: 0, addr: 0 }, // SIGSEGV / SI_KERNEL
+            1 => Exc { code: 7, flags: 0x80, nparams: 0, info0: 0, info1: 0, addr: 0 },  // SIGBUS / SI_KERNEL
+            _ => Exc { code: 11, flags: *rng.pick(&[1, 2]), nparams: 0, info0: 0, info1: 0, addr },
+        },
+        _ => match rng.below(4) {
+            0 => Exc { code: 1, flags: 13, nparams: 0, info0: 0, info1: 0, addr: 0 }, // EXC_BAD_ACCESS / EXC_I386_GPFLT
+            _ => Exc { code: 1, flags: 1, nparams: 0, info0: 0, info1: 0, addr },
+        },
+    }
+}
+
+fn gen_case(rng: &mut Rng, big: bool) -> Case {
+    let cpu = match rng.below(20) {
+        0 => "x86",
+        1 => "arm64",
+        2 | 3 => "ppc64",
+        4 => "mips64",
+        5 => *rng.pick(&["arm", "ppc", "unknown"]),
+        _ => "amd64",
+    }
+    .to_string();
+    let os = match rng.below(10) {
+        0..=4 => "win",
+        5..=7 => "linux",
+        _ => "mac",
+    }
+    .to_string();
+    let kind = match rng.below(20) {
+        0 => MapKind::None,
+        1 => MapKind::Both,
+        2..=9 => MapKind::Maps,
+        _ => MapKind::Info,
+    };
+    let n = if kind == MapKind::None {
+        0
+    } else if big {
+        rng.range(17, 64) as usize
+    } else {
+        match rng.below(10) {
+            0 => 0,
+            1 | 2 => 1,
+            3..=6 => rng.range(2, 4) as usize,
+            _ => rng.range(5, 16) as usize,
+        }
+    };
+    let regions = gen_regions(rng, &kind, n);
+    let addr = gen_addr(rng, &kind, &regions);
+    let exc = gen_exc(rng, &os, addr);
+    let ins = if rng.chance(1, 8) {
+        "none".to_string()
+    } else if rng.chance(1, 2) {
+        rng.pick(INS).key.to_string()
+    } else {
+        let base = if rng.chance(1, 8) { "none" } else { *rng.pick(&AMD64_HW) };
+        let mut index = if rng.chance(1, 3) { "none" } else { *rng.pick(&AMD64_HW) };
+        if index == "rsp" || (base == "none" && index == "none") {
+            index = "rcx";
+        }
+        let disp: i64 = match rng.below(6) {
+            0 | 1 => 0,
+            2 => rng.below(256) as i64 - 128,
+            3 => 8 * rng.below(16) as i64,
+            4 => rng.below(1 << 31) as i64,
+            _ => -(rng.below(1 << 31) as i64) - 1,
+        };
+        format!("sib.{base}.{index}.{}.{disp}", rng.pick(&[1u64, 2, 4, 8]))
+    };
+    let regs = if rng.chance(1, 8) {
+        None
+    } else {
+        let names: &[&str] = match cpu.as_str() {
+            "amd64" => AMD64_REGS,
+            "ppc64" => PPC64_REGS,
+            "x86" => &["eip", "esp"],
+            "arm64" => &["pc", "sp"],
+            _ => &[],
+        };
+        let mut v: Vec<(String, u64)> = vec![];
+        let ip = 0x40_0000 + (rng.below(16) << 4);
+        for n in names {
+            let val = if *n == ip_name(&cpu) {
+                ip
+            } else if cpu == "x86" {
+                rng.below(1 << 32)
+            } else {
+                match rng.below(12) {
+                    0 => 0,
+                    1 => *rng.pick(POISON),
+                    2 | 3 => addr.wrapping_add(rng.below(0x2400)).wrapping_sub(0x1200), // nearby or just not
+                    4..=7 => gen_addr(rng, &kind, &regions),
+                    8 => rng.below(64),
+                    _ => continue, // zero
+                }
+            };
+            v.push((n.to_string(), val));
+        }
+        // make the instruction's base register interesting more often
+        if cpu == "amd64" {
+            if let Some(i) = find_ins(&ins) {
+                for r in &i.regs {
+                    if AMD64_REGS.contains(r) && *r != "rip" && rng.chance(3, 4) {
+                        v.retain(|(n, _)| n != r);
+                        let val = match rng.below(8) {
+                            0 => 0,
+                            1 => addr,
+                            _ => gen_addr(rng, &kind, &regions),
+                        };
+                        v.push((r.to_string(), val));
+                    }
+                }
+            }
+        }
+        let gpf = (os == "win" && exc.code == 0xc0000005 && exc.nparams >= 2 && exc.info0 == 0 && exc.info1 == u64::MAX)
+            || (os == "linux" && exc.flags == 0x80)
+            || (os == "mac" && exc.flags == 13);
+        if cpu == "amd64" && gpf && rng.chance(3, 4) {
+            if let Some(i) = find_ins(&ins) {
+                if let Some(b) = i.base {
+                    if b != "rip" {
+                        let target = gen_addr(rng, &kind, &regions);
+                        let val = match rng.below(4) {
+                            0 => target ^ (1u64 << 47),
+                            _ => target ^ (1u64 << (48 + rng.below(16))),
+                        };
+                        v.retain(|(n, _)| n != b && Some(n.as_str()) != i.index.map(|x| x.0));
+                        v.push((b.to_string(), val.wrapping_sub(i.disp as u64)));
+                    }
+                }
+            }
+        }
+        Some(v)
+    };
+    Case { cpu, os, exc, regs, ins, kind, regions }
+}
 
 impl Engine for Bitflip {
     fn name(&self) -> &'static str {
         "bitflip"
     }
     fn rule(&self) -> String {
-        "not implemented".into()
+        "case = synthesized minidump (cpu amd64/x86/arm64/ppc64/mips64/arm/ppc/unknown; os win/linux/mac; exception record incl. Windows AV read/write/exec, GPF shapes of the three OSes; exception context with all 17 amd64 / 39 ppc64 registers or none; memory at rip holding one of 20 fixed encodings or a synthesized `mov rax,[base+index*scale+disp]` over all 16x15 base/index registers, 4 scales, disp8/disp32; memory-info list or Linux maps (or both, or none) with 0..64 regions of every protection/permission mix incl. NULL page, region ending at 2^64-1, empty, overflowing and overlapping regions), crash address chosen as a one-bit / two-bit neighbour of mapped memory, of NULL, inside a region, around the canonical boundary or random. Plus BitFlipDetails::confidence on all combinations of its inputs. non-trivial = at least one flip reported, or a 64-bit non-ARM64 dump with a non-empty map whose examined address is not mapped; distinct = distinct case line".into()
     }
-    fn generate(&self, _tier: Tier, _rng: &mut Rng, _emit: &mut dyn FnMut(String)) {}
-    fn exec(&self, _case: &str) -> ImplResult {
-        ImplResult::default()
+    fn exhaustive_part(&self) -> Option<String> {
+        Some("BitFlipDetails::confidence(): all 2^4 flag combinations x nearby_registers in {0,1,2,3,4,5,17,2^32-1} (128 records; the function only distinguishes min(nearby,4)). Systematic single-region product: 64 bit positions x {amd64 user, amd64 kernel-half, ppc64} x {read, write, exec, undetermined} x 8 permission mixes (6144 dumps)".into())
+    }
+
+    fn generate(&self, tier: Tier, rng: &mut Rng, emit: &mut dyn FnMut(String)) {
+        for bits in 0..16u32 {
+            for near in [0u32, 1, 2, 3, 4, 5, 17, u32::MAX] {
+                emit(format!(
+                    "bitflip conf {} {} {} {} {}",
+                    bits & 1,
+                    (bits >> 1) & 1,
+                    (bits >> 2) & 1,
+                    near,
+                    (bits >> 3) & 1
+                ));
+            }
+        }
+        // ---- systematic: every bit position x cpu x kind of access x permission mix, one region
+        for i in 0..64u32 {
+            for (cpu, target) in [("amd64", 0x0000_7f00_1234_5000u64), ("amd64", 0xffff_9000_0000_1000), ("ppc64", 0x0000_7f00_1234_5000)] {
+                for (code, nparams, info0) in [(0xc0000005u32, 2u32, 0u64), (0xc0000005, 2, 1), (0xc0000005, 2, 8), (0xc000001d, 0, 0)] {
+                    for perm in 0..8u32 {
+                        let examined = (target + 0x10) ^ (1u64 << i);
+                        let c = Case {
+                            cpu: cpu.to_string(),
+                            os: "win".to_string(),
+                            exc: Exc { code, flags: 0, nparams, info0, info1: examined, addr: examined },
+                            regs: None,
+                            ins: "none".to_string(),
+                            kind: MapKind::Maps,
+                            regions: vec![Region { lo: target, b: target + 0xfff, p: perm }],
+                        };
+                        emit(render(&c));
+                    }
+                }
+            }
+        }
+        let n = if tier == Tier::Quick { 40000 } else { 600000 };
+        for i in 0..n {
+            let c = gen_case(rng, i % 8 == 7);
+            emit(render(&c));
+        }
+    }
+
+    fn exec(&self, case: &str) -> ImplResult {
+        let mut res = ImplResult::default();
+        let f: Vec<&str> = case.split(' ').filter(|s| !s.is_empty()).collect();
+        if f.len() == 7 && f[0] == "bitflip" && f[1] == "conf" {
+            return exec_conf(&f[2..]);
+        }
+        let Some(c) = parse_case(case) else {
+            res.out = "bad-op".into();
+            LAST.with(|l| *l.borrow_mut() = Some((case.to_string(), Some(case.to_string()))));
+            return res;
+        };
+        res.tags.push("kind:run".into());
+        match catch(|| {
+            let mut r = ImplResult::default();
+            let o = run_case(&c, &mut r);
+            (r, o)
+        }) {
+            Ok((r, o)) => {
+                res.oracle = r.oracle;
+                res.tags.extend(r.tags);
+                res.nontrivial = r.nontrivial;
+                res.out = o.out;
+                LAST.with(|l| *l.borrow_mut() = Some((case.to_string(), o.request)));
+            }
+            Err(msg) => {
+                res.out = "PANIC".into();
+                res.oracle.push(("processing-panics".into(), msg));
+                LAST.with(|l| *l.borrow_mut() = Some((case.to_string(), None)));
+            }
+        }
+        res
+    }
+
+    fn model_request(&self, case: &str) -> Option<String> {
+        if case.starts_with("bitflip conf ") {
+            return Some(case.to_string());
+        }
+        let cached = LAST.with(|l| match &*l.borrow() {
+            Some((c, r)) if c == case => Some(r.clone()),
+            _ => None,
+        });
+        match cached {
+            Some(r) => r,
+            None => {
+                let _ = self.exec(case);
+                LAST.with(|l| match &*l.borrow() {
+                    Some((c, r)) if c == case => r.clone(),
+                    _ => None,
+                })
+            }
+        }
+    }
+
+    fn shrink(&self, case: &str, still_fails: &dyn Fn(&str) -> bool) -> String {
+        let Some(mut c) = parse_case(case) else { return case.to_string() };
+        let mut progress = true;
+        while progress {
+            progress = false;
+            let mut i = 0;
+            while i < c.regions.len() {
+                let mut d = c.clone();
+                d.regions.remove(i);
+                if still_fails(&render(&d)) {
+                    c = d;
+                    progress = true;
+                } else {
+                    i += 1;
+                }
+            }
+            if let Some(regs) = c.regs.clone() {
+                let mut i = 0;
+                let mut regs = regs;
+                while i < regs.len() {
+                    if regs[i].0 == ip_name(&c.cpu) {
+                        i += 1;
+                        continue;
+                    }
+                    let mut d = c.clone();
+                    let mut r2 = regs.clone();
+                    r2.remove(i);
+                    d.regs = Some(r2.clone());
+                    if still_fails(&render(&d)) {
+                        regs = r2;
+                        c = d;
+                        progress = true;
+                    } else {
+                        i += 1;
+                    }
+                }
+            }
+            if c.ins != "none" {
+                let mut d = c.clone();
+                d.ins = "none".into();
+                if still_fails(&render(&d)) {
+                    c = d;
+                    progress = true;
+                }
+            }
+        }
+        render(&c)
     }
 }
